@@ -17,7 +17,10 @@ const Rule = "cases = (LL(1) grammar, iteration-shuffle seed, token strings): ra
 	"independent FIRST/FOLLOW oracle is conflict-free; queries: table, `parse w` for EVERY token string w of length <=5 over " +
 	"the grammar's terminals (so every sentence, every sentence + extra token, every truncated sentence of that length), " +
 	"`ast w` for every sentence of length <=5 and some non-sentences, unchanged; one case in eight is a grammar with a " +
-	"conflict (Parse must refuse with the table error); non-trivial = conflict-free grammar for which the case parsed a sentence, " +
+	"conflict (Parse must refuse with the table error); plus: cases that change the SAME *CFG object in place between " +
+	"parser constructions (prod/unprod lines, then every string of length <=4 again, judged against the changed grammar), " +
+	"and nestings 1100-1600 levels deep through the real parser (S -> ( S ) | a, S -> a S B | c with B -> b | eps, the " +
+	"expression grammar), judged by an Earley recogniser; non-trivial = conflict-free grammar for which the case parsed a sentence, " +
 	"a non-sentence, and a sentence followed by further tokens; distinct = distinct (header, op list)"
 
 func Exec(c hx.Case) hx.Result { return c10.Exec(c) }
@@ -62,9 +65,9 @@ func Main(run *hx.Run) {
 	tried, kept := 0, 0
 	for _, name := range names {
 		r := run.R.Fork(name)
-		n := run.Scale(24)
+		n := run.Scale(70)
 		if name == "near-ll1" {
-			n = run.Scale(60)
+			n = run.Scale(180)
 		}
 		for k := 0; k < n; {
 			g := gx.Random(r, mixes[name])
@@ -84,6 +87,72 @@ func Main(run *hx.Run) {
 			}
 			c := hx.Case{Header: fmt.Sprintf("comp=predictive mix=%s shuffle=%d", name, r.Intn(1<<30)), Ops: Ops(r, g, wl)}
 			run.Do("predictive", c, Exec)
+		}
+	}
+	// the same *CFG object changed in place between parser constructions
+	{
+		r := run.R.Fork("in-place")
+		for k := 0; k < run.Scale(80); {
+			g := gx.Random(r, mixes["near-ll1"])
+			if !c10.NewOracle(g).ConflictFree() {
+				continue
+			}
+			k++
+			ops := Ops(r, g, 4)
+			g2 := g
+			for round := 0; round < 2; round++ {
+				p, ok := c10.RandomProd(r, g2)
+				if !ok {
+					break
+				}
+				g2.Prods = append(append([]gx.P{}, g2.Prods...), p)
+				ops = append(ops, strings.TrimRight("prod "+p.Head+" : "+strings.Join(p.Body, " "), " "))
+				ops = append(ops, Ops(r, g2, 4)[len(g2.Lines()):]...)
+				if r.Chance(2, 3) {
+					ops = append(ops, strings.TrimRight("unprod "+p.Head+" : "+strings.Join(p.Body, " "), " "))
+					g2.Prods = g2.Prods[:len(g2.Prods)-1]
+					ops = append(ops, Ops(r, g2, 4)[len(g2.Lines()):]...)
+				}
+			}
+			c := hx.Case{Header: fmt.Sprintf("comp=predictive mix=in-place shuffle=%d", r.Intn(1<<30)), Ops: ops}
+			run.Do("predictive", c, Exec)
+		}
+	}
+	// very deep nestings through the real parser
+	{
+		r := run.R.Fork("deep")
+		rep := func(t string, n int) string { return strings.TrimSpace(strings.Repeat(t+" ", n)) }
+		for k := 0; k < run.Scale(2); k++ {
+			n := r.Range(1100, 1600)
+			paren := gx.G{Terms: []string{"(", ")", "a"}, NonTerms: []string{"S"}, Start: "S",
+				Prods: []gx.P{{Head: "S", Body: []string{"(", "S", ")"}}, {Head: "S", Body: []string{"a"}}}}
+			ops := append(paren.Lines(), "table",
+				"parse "+rep("(", n)+" a "+rep(")", n),
+				"parse "+rep("(", n)+" a "+rep(")", n-1),
+				"parse "+rep("(", n)+" a "+rep(")", n+1),
+				"ast "+rep("(", n)+" a "+rep(")", n), "unchanged")
+			run.Do("predictive", hx.Case{Header: fmt.Sprintf("comp=predictive mix=deep-paren depth=%d shuffle=%d", n, r.Intn(1<<30)), Ops: ops}, Exec)
+
+			tail := gx.G{Terms: []string{"a", "b", "c"}, NonTerms: []string{"S", "B"}, Start: "S",
+				Prods: []gx.P{{Head: "S", Body: []string{"a", "S", "B"}}, {Head: "S", Body: []string{"c"}}, {Head: "B", Body: []string{"b"}}, {Head: "B"}}}
+			m := r.Range(0, n)
+			ops = append(tail.Lines(), "table",
+				"parse "+rep("a", n)+" c",
+				"parse "+rep("a", n)+" c "+rep("b", m),
+				"parse "+rep("a", n)+" c "+rep("b", n+1),
+				"ast "+rep("a", n)+" c "+rep("b", m), "unchanged")
+			run.Do("predictive", hx.Case{Header: fmt.Sprintf("comp=predictive mix=deep-tail depth=%d shuffle=%d", n, r.Intn(1<<30)), Ops: ops}, Exec)
+
+			expr := gx.G{Terms: []string{"+", "*", "(", ")", "id"}, NonTerms: []string{"E", "E'", "T", "T'", "F"}, Start: "E",
+				Prods: []gx.P{{Head: "E", Body: []string{"T", "E'"}}, {Head: "E'", Body: []string{"+", "T", "E'"}}, {Head: "E'"},
+					{Head: "T", Body: []string{"F", "T'"}}, {Head: "T'", Body: []string{"*", "F", "T'"}}, {Head: "T'"},
+					{Head: "F", Body: []string{"(", "E", ")"}}, {Head: "F", Body: []string{"id"}}}}
+			d := n / 3
+			ops = append(expr.Lines(), "table",
+				"parse "+rep("(", d)+" id + id "+rep(")", d)+" * id",
+				"parse "+rep("(", d)+" id + id "+rep(")", d)+" id",
+				"ast "+rep("(", d)+" id "+rep(")", d), "unchanged")
+			run.Do("predictive", hx.Case{Header: fmt.Sprintf("comp=predictive mix=deep-expr depth=%d shuffle=%d", d, r.Intn(1<<30)), Ops: ops}, Exec)
 		}
 	}
 	run.Stats.Extra["grammars_drawn"] = tried
